@@ -271,6 +271,38 @@ pub fn run(ctx: &Ctx) -> i32 {
             }
         }
     });
+    // control characters: all contents of <= 4 units over {NUL, TAB, a, LF} x all cuts (a line is delivered byte for byte,
+    // whatever it starts or ends with)
+    {
+        let cunits: [&[u8]; 4] = [b"\0", b"\t", b"a", b"\n"];
+        let kc = cunits.len() as u64;
+        let citems: Vec<Vec<u8>> = (0..seq_count(kc, 4)).map(|i| seq_decode(i, kc, 4).iter().flat_map(|u| cunits[*u as usize].iter().copied()).collect::<Vec<u8>>()).filter(|c: &Vec<u8>| c.contains(&0) || c.contains(&b'\t')).collect();
+        let cdesc = |idx: u64| json!({"hang": true, "content_hex": hex(&citems[idx as usize])});
+        let (cdone, ccomplete) = par_for_watch(ctx, citems.len() as u64, 8, &cdesc, |idx| {
+            let content = &citems[idx as usize];
+            let n = content.len();
+            for mask in 0..(if n == 0 { 1 } else { 1u64 << (n - 1) }) {
+                let chunks = cut_from_mask(n, mask);
+                for cap in [3usize, 8192] {
+                    for pre in [0usize, 1] {
+                        let (fs, obs) = judge(content, &chunks, cap, pre, None);
+                        col.eval(1);
+                        col.traces_validated.fetch_add(1, std::sync::atomic::Ordering::Relaxed);
+                        if let Some(o) = &obs {
+                            col.transitions.fetch_add(o.polls as u64, std::sync::atomic::Ordering::Relaxed);
+                            if o.polls_inside_line > 0 {
+                                col.nontrivial(h64(&("ctl", idx, mask, cap, pre)));
+                            }
+                        }
+                        for f in fs {
+                            col.fail(f);
+                        }
+                    }
+                }
+            }
+        });
+        col.layer("control characters (NUL, TAB) x all cuts", cdone, ccomplete, json!({"units": ["NUL", "TAB", "a", "LF"], "max_units": 4}));
+    }
     // a writer that stalls (40 polls, 600 ms) at every retry point: all cuts of two contents
     {
         let stall_contents: Vec<&[u8]> = ctx.tier.pick(vec![&b"ab\ncd\n"[..]], vec![&b"ab\ncd\n"[..], "\u{e9}x\ny\n".as_bytes(), &b"a\r\nbc"[..]]);
